@@ -235,6 +235,14 @@ func concreteOf(t types.Type, bits uint64) value {
 // ---------------------------------------------------------------- operators
 
 func (x *Explorer) mk(e string, s ssort) sym {
+	// hash-consing: the same expression over the same operands is the same term, so a reference
+	// computation and the implementation's computation that coincide structurally are identical to the solver
+	if t, ok := x.terms[e]; ok && t.s == s {
+		return t
+	}
+	defer func() {
+		x.terms[e] = sym{fmt.Sprintf("t%d", x.nterms), s}
+	}()
 	x.nterms++
 	name := fmt.Sprintf("t%d", x.nterms)
 	x.perm("(define-fun " + name + " () " + s.smt() + " " + e + ")")
